@@ -319,6 +319,13 @@ def run(tier, seed):
             for f_delta in (float(rng.uniform(0.6, 6.0)), None):
                 sc_lsq({"kind": "lsq", "data": rcp, "data_label": dl, "weights": w, "weights_label": wl, "f_delta": f_delta, "delta0": 1.0,
                         "method": "wlsq" if wl != "none" else "lsq", "rescale": [1000.0, 1.0 / 7.0], "perm_seed": int(rng.integers(0, 2 ** 31 - 1))}, rec)
+    # history: two fits in a row whose samples have the same number of NON-ZERO observations but different sizes (the second
+    # one contains zeros), same delta: the plotting positions of the second fit are those of ITS OWN sample
+    for k, (n1, z2) in enumerate(((200, 3), (61, 1))):
+        common = {"source": "ew", "alpha": 1.4, "beta": 1.3, "delta": 2.0}
+        for rcp, lab in (({**common, "n": n1, "data_seed": 77 + k}, f"history:first-n={n1}"), ({**common, "n": n1 + z2, "data_seed": 99 + k, "zeros": z2}, f"history:then-n={n1 + z2}-with-{z2}-zeros")):
+            sc_lsq({"kind": "lsq", "data": rcp, "data_label": lab, "weights": None, "weights_label": "none", "f_delta": 2.0, "delta0": 1.0, "method": "lsq", "rescale": [],
+                    "perm_seed": 5}, rec)
     rec.group("weights keywords", "unknown keyword, upper/lower case", "distinct = keyword")
     for word in ("quartic", "none", ""):
         sc_keyword({"kind": "keyword", "word": word, "data": recipes[0][1]}, rec)
